@@ -41,7 +41,7 @@ CHECKS = {
    WORLD_NOTE + " Messages crafted by an adversary to mimic the other mode's formatted input beyond the mechanical OID||PH(M) case, and alignments that must be searched for, are not reached.",
    "deterministic simulation: misrouting / re-framing channel faults over seeded lifecycle histories", "DESIGN.md 4.7"),
  "C07": chk("C07", "exploration",
-   "World simulation: signing with contexts of 256, 257, 300, 511, 512, 1000, 65791 and 2^32+k bytes (k in {0,1,3,32,255}: the widths at which a length held in 8, 16 or 32 bits wraps; the 4 GiB buffer is untouched zero pages, so it costs nothing unless the library reads it) must fail in every mode and with every replica, through the public and the internal signing interface, and every verifier replica must reject the tuple signed last under that context; signing with every context length class 0..255 must succeed; an intact tuple replayed by the channel with an over-long context - the original extended by 256 or 512 bytes (same length modulo 256), replaced by 256 or 257 bytes, or re-framed so that the boundary moves by exactly 256 (the aliasing case of the one-byte length field) - must be rejected by every public-key replica.",
+   "World simulation: signing with contexts of 256, 257, 300, 511, 512, 1000, 65791 and 2^32+k bytes (k in {0,1,3,32,255}: the widths at which a length held in 8, 16 or 32 bits wraps; the 4 GiB buffer is untouched zero pages, so it costs nothing unless the library reads it) must fail in every mode and with every replica, through the public and the internal signing interface, and the first verifier replica must reject the tuple signed last under that context; signing with every context length class 0..255 must succeed; an intact tuple replayed by the channel with an over-long context - the original extended by 256 or 512 bytes (same length modulo 256), replaced by 256 or 257 bytes, or re-framed so that the boundary moves by exactly 256 (the aliasing case of the one-byte length field) - must be rejected by every public-key replica.",
    WORLD_NOTE + " Weak tie to the family (the statement is a function of the context length); what the simulator adds is the replay/re-framing channel fault that exhibits the aliasing when signer and verifier guards disagree. Context lengths are sampled from the listed classes, not enumerated 0..N.",
    "deterministic simulation: replay / re-framing channel faults with over-long contexts over seeded histories", "DESIGN.md 4.7"),
  "C08": chk("C08", "fault_enumeration",
